@@ -10,8 +10,8 @@ P == INSTANCE PipeProps
 Batch == JsonDeserialize(IOEnv.TRACE_FILE)
 Traces == Batch.traces
 
-VARIABLES ti, w, obs
-vars == <<ti, w, obs>>
+VARIABLES ti, w, obs, ex
+vars == <<ti, w, obs, ex>>
 
 Tr == Traces[ti]
 RawCfg == Tr.cfg
@@ -61,17 +61,18 @@ ApplyWin(o, win) ==
   LET o1 == ApplyEvs(ApplyCmd(o, win.cmd, win.skipped), win.done) IN
   [o1 EXCEPT !.inLen = [i \in 1..NIn |-> win.q.inLen[i]], !.live = win.q.live, !.now = win.q.now]
 
-Init == ti \in 1..Len(Traces) /\ w = 0 /\ obs = Obs0
+Init == ti \in 1..Len(Traces) /\ w = 0 /\ obs = Obs0 /\ ex = {}
 Next == /\ w < Len(Tr.wins)
         /\ w' = w + 1 /\ ti' = ti
         /\ obs' = ApplyWin(obs, Tr.wins[w + 1])
+        /\ ex' = ex \cup P!Exercised(Cfg, obs')
 \* a library goroutine panicked while this schedule ran (the process died): one more, final, observation
 Crash == /\ w = Len(Tr.wins) /\ Tr.crash /\ w' = w + 1 /\ ti' = ti
-         /\ obs' = [obs EXCEPT !.panic = TRUE, !.quiet = FALSE]
+         /\ obs' = [obs EXCEPT !.panic = TRUE, !.quiet = FALSE] /\ ex' = ex
 Spec == Init /\ [][Next \/ Crash]_vars
 
 Judge ==
   /\ (w > 0 => LET f == P!Failing(Cfg, obs) IN
                f # {} => PrintT(ToJson([t |-> "PVIOL", ti |-> ti, w |-> w, preds |-> f])))
-  /\ ((w = Len(Tr.wins) + (IF Tr.crash THEN 1 ELSE 0)) => PrintT(ToJson([t |-> "DONE", ti |-> ti, w |-> w])))
+  /\ ((w = Len(Tr.wins) + (IF Tr.crash THEN 1 ELSE 0)) => PrintT(ToJson([t |-> "DONE", ti |-> ti, w |-> w, ex |-> ex])))
 ====
